@@ -88,6 +88,10 @@ def make_storage(spec, clock, count_get=False):
         return storage_proxy(SequenceStorage, clock, count_get)(store_targets=tg)
     if kind == "batch":
         return storage_proxy(BatchStorage, clock, count_get)(store_targets=tg)
+    if kind == "tree":      # TreeStorage over numeric features (spec: ("tree", names, grace period, reservoir length, seed))
+        from ixai.storage import TreeStorage
+        return storage_proxy(TreeStorage, clock, count_get)(cat_feature_names=[], num_feature_names=list(spec[1]), max_depth=3,
+                                                            leaf_reservoir_length=spec[3], grace_period=spec[2], seed=spec[4])
     raise ValueError(spec)
 
 
@@ -111,9 +115,9 @@ def gen_storage_spec(rnd):
 def gen_cfg(rnd, explainer, exact, allow_discontinuous=False):
     dyn = rnd.random() < 0.6
     if exact:
-        alpha = rnd.choice([Q(1, 1000), Q(1, 3), Q(1, 2), 1, Q(rnd.randrange(1, 1000), 1000), 0.25, 0.5, 1.0])  # floats: 1-alpha exact
+        alpha = rnd.choice([Q(1, 1000), Q(1, 3), Q(1, 2), 1, Q(rnd.randrange(1, 1000), 1000), 0.25, 0.5, 1.0, Q(1, 4096), Q(1, 10 ** 5), 2.0 ** -12])  # floats: 1-alpha exact
     else:
-        alpha = rnd.choice([0.001, 1 / 3, 0.5, 1.0, rnd.uniform(1e-3, 1.0)])
+        alpha = rnd.choice([0.001, 1 / 3, 0.5, 1.0, rnd.uniform(1e-3, 1.0), 1e-4, 2.0 ** -12, rnd.uniform(1e-6, 1e-3)])      # (rates below the default 0.001 are legal)
     d = rnd.choice([1, 2, 2, 3, 3, 4, 5, 6])
     cfg = {
         "explainer": explainer, "exact": exact, "dyn": dyn, "alpha": alpha,
@@ -123,7 +127,7 @@ def gen_cfg(rnd, explainer, exact, allow_discontinuous=False):
         "imputer": rnd.choice(["joint", "joint", "product", "default", "custom", "library-default", "background"]),
         # 'background': a MarginalImputer bound to a data set the USER maintains, not to the explainer's own storage
         "frozen_first": rnd.choice([0, 0, 0, 1, 2, 6]),   # first calls made with update_storage=False (imputers that do not need the storage)
-        "model": rnd.choice(["scalar", "scalar", "multi", "grow", "ignore", "constant", "linear", "positional", "positional", "antisym", "coarse", "top2"]),
+        "model": rnd.choice(["scalar", "scalar", "multi", "grow", "ignore", "constant", "linear", "positional", "positional", "antisym", "coarse", "top2", "abstain"]),
         "extras": rnd.choice([0, 0, 1, 2]),          # features present in the data but not explained (the model reads them)
         "warm_start": rnd.choice([0, 0, 0, 2]),      # observations put into the storage via update_storage() before the first call
         "loss": rnd.choice(["hash", "hash", "hash", "sq", "zero"]) if exact else rnd.choice(["sq", "abs", "sq", "zero"]),
@@ -138,6 +142,7 @@ def gen_cfg(rnd, explainer, exact, allow_discontinuous=False):
         "label_keys": rnd.choice(["int", "int", "str"]),                                     # keys of multi-label outputs
         "x_type": rnd.choice(["dict", "dict", "OrderedDict", "subclass", "Counter"]),                   # observations as dict subclasses
         "memo_model": rnd.random() < 0.25,
+        "river_wrap": rnd.random() < 0.15,            # the prediction function goes through ONE RiverWrapper object shared by explainer and imputer
         "reuse_out": rnd.random() < 0.2,               # the model overwrites ONE output dict (only with one inner sample per imputation)
         "checkpoint": rnd.random() < 0.15,            # mid-stream the caller deep-copies everything (explainer, storage, imputer) and continues on the copy
         "positional_call": rnd.random() < 0.3,       # optional arguments passed POSITIONALLY in the documented order (x_i, y_i, n_inner_samples, update_storage)
@@ -155,7 +160,13 @@ def gen_cfg(rnd, explainer, exact, allow_discontinuous=False):
         cfg["n_inner"] = min(cfg["n_inner"], 2)
         cfg["model"] = rnd.choice(["phase", "phase", cfg["model"]])      # a model that only becomes informative after ~40 observations
         cfg["extras"] = 0
-    cfg["str_values"] = rnd.random() < 0.2 and cfg["model"] not in ("linear", "phase")      # categorical features with string values
+    if not exact and rnd.random() < 0.05:       # the tree combination: TreeStorage + TreeImputer under an incremental explainer
+        cfg.update(storage=("tree", rnd.choice([5, 10, 30]), rnd.choice([1, 3, 10])), imputer=rnd.choice(["tree-storage", "tree-model"]),
+                   warm_start=0, manual_updates=False, frozen_first=0, steps=max(cfg["steps"], 25), x_type="dict", shuffle_keys=False)
+        if cfg["model"] in ("phase",):
+            cfg["model"] = "scalar"
+        cfg["d"] = max(2, min(cfg["d"], 4))
+    cfg["str_values"] = rnd.random() < 0.2 and cfg["storage"][0] != "tree" and cfg["model"] not in ("linear", "phase")      # categorical features with string values
     cfg["ykind"] = rnd.choice(["str", "bool"]) if rnd.random() < 0.2 and cfg["loss"] in ("hash", "zero", "zero-one") else "int"
     r = rnd.random()
     if r < 0.03:          # wide explainers (many features), short streams
@@ -214,6 +225,12 @@ class Scenario:
             self.model.memo = {}
         if cfg.get("reuse_out") and cfg["n_inner"] == 1 and not cfg.get("vary_calls") and cfg["imputer"] != "custom":
             self.model.reuse_out = True
+        model_fn = self.model
+        if cfg.get("river_wrap"):
+            # the user wraps the (dict-returning) prediction function in the library's RiverWrapper, ONE wrapper object shared by the
+            # explainer and the imputer: dict outputs pass through it unchanged
+            from ixai.utils.wrappers import RiverWrapper
+            model_fn = RiverWrapper(self.model)
         self.loss = Losses(cfg["loss"], exact=cfg["exact"], clock=self.clock, out_type=cfg.get("out_type", "plain"))
         loss_fn = self.loss
         if strict_loss:
@@ -226,24 +243,35 @@ class Scenario:
             if cfg["imputer"] not in ("default", "library-default"):
                 cfg["imputer"] = "library-default"
             cfg["warm_start"] = 0
+        elif cfg["storage"][0] == "tree":
+            # explainer + TreeStorage + TreeImputer (float mode): every explained and every extra feature is numeric for the trees
+            allf = list(self.names) + [f"extra{j}" for j in range(cfg.get("extras", 0))]
+            self.storage = make_storage(("tree", allf, cfg["storage"][1], cfg["storage"][2], seed % 1000), self.clock, count_get)
         else:
             self.storage = make_storage(cfg["storage"], self.clock, count_get)
+        if str(cfg["imputer"]).startswith("tree") and cfg["storage"][0] != "tree":
+            cfg["imputer"] = "joint"          # (a check replaced the storage of a tree configuration: the tree imputer goes with it)
+        if cfg["storage"][0] == "tree" and not str(cfg["imputer"]).startswith("tree"):
+            cfg["imputer"] = "tree-storage"
         imp = cfg["imputer"]
         # odd-indexed features get falsy defaults now and then (0 / False are legal default values)
         self.defaults = {n: (-(j + 1) if j % 2 == 0 or seed % 3 else [0, False, 0.0][j % 3]) for j, n in enumerate(self.names)}
         if imp in ("joint", "product"):
-            real = MarginalImputer(self.model, imp, self.storage)
+            real = MarginalImputer(model_fn, imp, self.storage)
         elif imp == "default":
-            real = DefaultImputer(self.model, dict(self.defaults))
+            real = DefaultImputer(model_fn, dict(self.defaults))
+        elif imp in ("tree-storage", "tree-model"):
+            from ixai.imputer import TreeImputer
+            real = TreeImputer(model_fn, self.storage, use_storage=(imp == "tree-storage"), direct_predict_numeric=bool(seed % 2))
         elif imp == "custom":
-            real = RoundRobinImputer(self.model, self.storage)
+            real = RoundRobinImputer(model_fn, self.storage)
         elif imp == "background":
             from ixai.storage import BatchStorage
             self.background = BatchStorage(store_targets=False)
             allf = list(self.names) + [f"extra{j}" for j in range(cfg.get("extras", 0))]
             for r in range(4):        # values disjoint from the stream's (the rows are still identified by their values)
                 self.background.update({n: -(5000000 + 1000 * r + j) for j, n in enumerate(allf)})      # (negative: stream values grow without bound)
-            real = MarginalImputer(self.model, rnd_strategy(seed), self.background)
+            real = MarginalImputer(model_fn, rnd_strategy(seed), self.background)
         else:
             real = None
         self.real_imputer = real
@@ -257,9 +285,9 @@ class Scenario:
         if cfg.get("pass_alpha", True):
             kw["smoothing_alpha"] = cfg["alpha"]
         if cfg["explainer"] == "sage":
-            self.e = IncrementalSage(self.model, loss_fn, self.names, loss_bigger_is_better=cfg["lbib"], **kw)
+            self.e = IncrementalSage(model_fn, loss_fn, self.names, loss_bigger_is_better=cfg["lbib"], **kw)
         else:
-            self.e = IncrementalPFI(self.model, loss_fn, self.names, **kw)
+            self.e = IncrementalPFI(model_fn, loss_fn, self.names, **kw)
         self.extras = [f"extra{j}" for j in range(cfg.get("extras", 0))]
         self.stream = UniqueStream(self.names, seed=seed, exact=cfg["exact"], extras=self.extras,
                                    shuffle_keys=cfg.get("shuffle_keys", False), str_values=cfg.get("str_values", False),
